@@ -1,6 +1,6 @@
 #!/bin/sh
 # reeval_all.sh <nlabs> [names...] — re-run all twenty checks against every filed seeded change (and, with REFS=1, every filed refactoring)
-# with the *current* /verif, spread over <nlabs> disposable labs (/tmp/relabK), then rebuild seeded/INDEX.md.  Development aid.
+# (OWN=--own: only the check of each change's own property) with the *current* /verif, spread over <nlabs> disposable labs (/tmp/relabK), then rebuild seeded/INDEX.md.  Development aid.
 N=${1:-4}; shift
 cd /verif
 if [ $# -gt 0 ]; then NAMES="$*"; else NAMES=$(ls seeded | grep '^C[0-9][0-9]' | tr '\n' ' '); fi
@@ -9,7 +9,7 @@ for n in $NAMES; do eval "L$((k % N))=\"\$L$((k % N)) $n\""; k=$((k + 1)); done
 for i in $(seq 0 $((N - 1))); do
   eval "names=\$L$i"
   ( MUTLAB=/tmp/relab$i sh vlib/mutlab.sh sync >/dev/null
-    [ -n "$names" ] && MUTLAB=/tmp/relab$i python3 vlib/reeval.py $names
+    [ -n "$names" ] && MUTLAB=/tmp/relab$i python3 vlib/reeval.py $OWN $names
     if [ "$REFS" = 1 ]; then j=0; for r in $(ls seeded/refactors); do [ $((j % N)) = $i ] && MUTLAB=/tmp/relab$i python3 vlib/evalrefactor.py - $r; j=$((j + 1)); done; fi
   ) > /tmp/relab$i.log 2>&1 &
 done
